@@ -106,10 +106,13 @@ func (o *OpaqueValue) Write(w io.Writer) error {
 }
 
 func newOpaque(sig string, r io.Reader) (Value, error) {
+	readSig := sig
 	if sig == "o" {
-		return newOpaque(ObjectReferenceSignature, r)
+		// an object is serialized as an object reference, the
+		// value keeps its own signature.
+		readSig = ObjectReferenceSignature
 	}
-	reader, err := signature.MakeReader(sig)
+	reader, err := signature.MakeReader(readSig)
 	if err != nil {
 		return nil, fmt.Errorf("Invalid signature %s: %s", sig, err)
 	}
